@@ -490,6 +490,8 @@ func ruleS3Fields(r *core.Reporter) {
 		// loops over Contents / CommonPrefixes
 		for _, field := range []string{"Contents", "CommonPrefixes"} {
 			var ia *ssa.IndexAddr
+			owner := fn
+			var anchor ssa.Instruction
 			allInstrs(fn, func(in ssa.Instruction) {
 				if x, ok := in.(*ssa.IndexAddr); ok && strings.HasSuffix(ir.Path(x.X), "."+field) {
 					if _, isInd := x.Index.(*ssa.BinOp); isInd && loopCoversAll(fn, x) {
@@ -498,12 +500,41 @@ func ruleS3Fields(r *core.Reporter) {
 				}
 			})
 			if ia == nil {
+				// the loop may live in a helper that is handed the field
+				allInstrs(fn, func(in ssa.Instruction) {
+					c, ok := in.(*ssa.Call)
+					if !ok {
+						return
+					}
+					h := ir.CalleeOf(c.Common())
+					if h == nil || !core.InModule(h) || h.Blocks == nil {
+						return
+					}
+					for k, a := range c.Call.Args {
+						if k >= len(h.Params) || !strings.HasSuffix(ir.Path(a), "."+field) {
+							continue
+						}
+						allInstrs(h, func(hin ssa.Instruction) {
+							if x, okx := hin.(*ssa.IndexAddr); okx && ir.SameValue(x.X, h.Params[k]) {
+								if _, isInd := x.Index.(*ssa.BinOp); isInd && loopCoversAll(h, x) {
+									ia, owner, anchor = x, h, c
+									r.Analysed(h)
+								}
+							}
+						})
+					}
+				})
+			}
+			if ia == nil {
 				if field == "Contents" || nm == "s3V2" {
 					r.Violated(nm+"/"+field, fnPos(p, fn), "%s does not walk every entry of %s", nm, field)
 				}
 				continue
 			}
-			l, _ := loopAround(fn, ia)
+			l, _ := loopAround(owner, ia)
+			if owner == fn {
+				anchor = l.If
+			}
 			cross := ""
 			for _, ii := range ir.Ifs(fn) {
 				if ii.If == l.If {
@@ -513,9 +544,22 @@ func ruleS3Fields(r *core.Reporter) {
 					if isLoopExitEdge(ii, t) {
 						continue // sequential composition after an earlier loop, not a condition
 					}
-					if ir.OnlyVia(ir.Entry(fn), l.If, ii.If.Block(), ii.EdgeWhen(t)) {
+					if ir.OnlyVia(ir.Entry(fn), anchor, ii.If.Block(), ii.EdgeWhen(t)) {
 						if f := fieldOfCond(ii.Atom); f != "" && f != field {
 							cross = f
+						}
+					}
+				}
+			}
+			if owner != fn {
+				// inside the helper nothing but the loop itself decides whether the entries are walked
+				for _, ii := range ir.Ifs(owner) {
+					if ii.If == l.If {
+						continue
+					}
+					for _, t := range []bool{true, false} {
+						if !isLoopExitEdge(ii, t) && ir.OnlyVia(ir.Entry(owner), l.If, ii.If.Block(), ii.EdgeWhen(t)) {
+							cross = "a condition in " + owner.Name()
 						}
 					}
 				}
@@ -537,7 +581,7 @@ func ruleS3Fields(r *core.Reporter) {
 				}
 				okSize := false
 				if app != nil {
-					for _, ii := range ir.Ifs(fn) {
+					for _, ii := range ir.Ifs(owner) {
 						a := ii.Atom
 						// "Size > 0" established: 0 < Size on the true edge, or Size <= 0 on the false edge
 						posTruth, isSizeTest := false, false
@@ -556,7 +600,7 @@ func ruleS3Fields(r *core.Reporter) {
 								if ir.OnlyVia(body, app, ii.If.Block(), ii.EdgeWhen(posTruth)) {
 									// no other condition
 									okSize = true
-									for _, jj := range ir.Ifs(fn) {
+									for _, jj := range ir.Ifs(owner) {
 										if jj.If == ii.If || jj.If == l.If || !rs.Reached[jj.If] {
 											continue
 										}
@@ -579,24 +623,75 @@ func ruleS3Fields(r *core.Reporter) {
 			}
 		}
 		// next-page link
-		var setCalls []*ssa.Call
-		allInstrs(fn, func(in ssa.Instruction) {
-			if c, ok := in.(*ssa.Call); ok && ir.IsCallTo(c, "(net/url.Values).Set") {
-				setCalls = append(setCalls, c)
-			}
-		})
-		params := map[string]*ssa.Call{}
-		for _, c := range setCalls {
-			if s, ok := ir.ConstString(c.Call.Args[1]); ok {
-				params[s] = c
-			}
+		// paging links: q.Set(name, value) on the request URL's query — directly, or through a helper that is given
+		// the request URL, the parameter name and the value
+		type pageParam struct {
+			at  *ssa.Call // anchor in fn (the Set call or the helper call)
+			val ssa.Value // the value, as seen in fn
+			set *ssa.Call // the Values.Set call itself
+			url ssa.Value // the URL whose query is modified, as seen in fn
 		}
+		queryURL := func(set *ssa.Call) ssa.Value {
+			if qc, isC := set.Call.Args[0].(*ssa.Call); isC && ir.IsCallTo(qc, "(*net/url.URL).Query") {
+				return qc.Call.Args[0]
+			}
+			return nil
+		}
+		params := map[string]*pageParam{}
+		var setCalls []*pageParam
+		allInstrs(fn, func(in ssa.Instruction) {
+			c, ok := in.(*ssa.Call)
+			if !ok {
+				return
+			}
+			if ir.IsCallTo(c, "(net/url.Values).Set") {
+				pp := &pageParam{at: c, val: c.Call.Args[2], set: c, url: queryURL(c)}
+				setCalls = append(setCalls, pp)
+				if s, okc := ir.ConstString(c.Call.Args[1]); okc {
+					params[s] = pp
+				}
+				return
+			}
+			h := ir.CalleeOf(c.Common())
+			if h == nil || !core.InModule(h) || h.Blocks == nil || h.Pkg != fn.Pkg {
+				return
+			}
+			allInstrs(h, func(hin ssa.Instruction) {
+				hc, okh := hin.(*ssa.Call)
+				if !okh || !ir.IsCallTo(hc, "(net/url.Values).Set") {
+					return
+				}
+				ki, vi := paramIndex(resolveParam(hc.Call.Args[1], 0)), paramIndex(resolveParam(hc.Call.Args[2], 0))
+				if ki < 0 || vi < 0 || ki >= len(c.Call.Args) || vi >= len(c.Call.Args) {
+					return
+				}
+				// unconditional inside the helper
+				if !ir.MustHit(h, ir.Event{ID: "values-set", Match: func(x ssa.Instruction) bool { return x == ssa.Instruction(hc) }}, 0) {
+					return
+				}
+				pp := &pageParam{at: c, val: c.Call.Args[vi], set: hc}
+				if u := queryURL(hc); u != nil {
+					// the URL is a copy of a helper parameter: bind it to the caller's argument
+					for k, hp := range h.Params {
+						if k < len(c.Call.Args) && strings.Contains(ir.Path(u), "$"+hp.Name()) {
+							pp.url = c.Call.Args[k]
+						}
+					}
+				}
+				setCalls = append(setCalls, pp)
+				if s, okc := ir.ConstString(c.Call.Args[ki]); okc {
+					params[s] = pp
+				}
+				r.Analysed(h)
+			})
+		})
 		if nm == "s3Legacy" {
-			c := params["marker"]
-			if c == nil {
+			pp := params["marker"]
+			if pp == nil {
 				r.Violated(nm+"/next-page", fnPos(p, fn), "the marker-paginated walk no longer builds a next-page link")
 			} else {
-				val := ir.Path(c.Call.Args[2])
+				c := pp.at
+				val := ir.Path(pp.val)
 				okVal := strings.Contains(val, ".Contents[(builtin.len(") && strings.HasSuffix(val, ".Key")
 				_, g := ir.GuardedBy(fn, ir.Entry(fn), c, true, func(a ir.Atom) bool {
 					if a.V != nil || a.Op != token.LSS {
@@ -614,11 +709,12 @@ func ruleS3Fields(r *core.Reporter) {
 				}
 			}
 		} else {
-			c := params["continuation-token"]
-			if c == nil {
+			pp := params["continuation-token"]
+			if pp == nil {
 				r.Violated(nm+"/next-page", fnPos(p, fn), "the list-type=2 walk no longer follows continuation tokens")
 			} else {
-				okVal := strings.HasSuffix(ir.Path(c.Call.Args[2]), ".NextContinuationToken")
+				c := pp.at
+				okVal := strings.HasSuffix(ir.Path(pp.val), ".NextContinuationToken")
 				okGuard := true
 				for _, ii := range ir.Ifs(fn) {
 					for _, t := range []bool{true, false} {
@@ -645,22 +741,13 @@ func ruleS3Fields(r *core.Reporter) {
 		}
 		// links reuse the request URL with only that parameter replaced: q := nextURL.Query(); q.Set(k, v); nextURL.RawQuery = q.Encode()
 		okReuse := true
-		for _, c := range setCalls {
-			q := c.Call.Args[0]
-			qc, isC := q.(*ssa.Call)
-			if !isC || !ir.IsCallTo(qc, "(*net/url.URL).Query") {
-				okReuse = false
-				continue
-			}
+		for _, pp := range setCalls {
 			// the URL the query is taken from is a copy of reqURL
-			if !strings.Contains(ir.Path(qc.Call.Args[0]), "$"+fn.Params[0].Name()) {
+			if pp.url == nil || !strings.Contains(ir.Path(pp.url), "$"+fn.Params[0].Name()) {
 				okReuse = false
 			}
 		}
-		nSets := 0
-		for range setCalls {
-			nSets++
-		}
+		nSets := len(setCalls)
 		if okReuse && nSets >= 1 {
 			r.Held(nm+"/reuse-request-url", nSets, "paging links are the request URL with only the paging parameter replaced")
 		} else {
